@@ -22,7 +22,7 @@
         match encode_dict_size(d) {
             Err(e) => {
                 assert!(d < MIN_DICT_SIZE || d > MAX_DICT_SIZE);
-                assert!(e.kind() == std::io::ErrorKind::InvalidInput);
+                assert!(vk::kind_of(&e) == vk::Kind::InvalidInput);
             }
             Ok(b) => {
                 assert!(d >= MIN_DICT_SIZE && d <= MAX_DICT_SIZE);
@@ -66,7 +66,7 @@
             }
             Err(e) => {
                 assert!(spec_lzip_decode(b).is_none());
-                assert!(e.kind() == std::io::ErrorKind::InvalidData);
+                assert!(vk::kind_of(&e) == vk::Kind::InvalidData);
             }
         }
     }
